@@ -158,3 +158,28 @@ Definition v_gen_u (k : Q) (pofx x us : list Q) (out : result (list Q)) : Z :=
              | Err _ => false
              end
            else true).
+
+(* ---------------------------------------------------------------- v_gen_u with the in-grid and monotonicity
+   requirements judged at the scale of the GRID (1e-12 |x|max), not at the condition-aware tolerance of the value
+   comparison: on a table with flat stretches (repeated cumulative values) the inverse map is arbitrarily steep
+   and the value comparison says nothing, but an interpolated value still has to lie between two grid abscissae and
+   the outputs still have to be ordered like the deviates (both up to rounding of magnitude eps |x|). *)
+Definition v_gen_x (k : Q) (pofx x us : list Q) (out : result (list Q)) : Z :=
+  let tbl := gen_tables false pofx x in
+  let xvals := fst tbl in
+  let pcum := snd tbl in
+  let tol := Qred (k * (relq * (qmaxabs x + max_slope xvals pcum))) in
+  let tolx := Qred (k * (relq * qmaxabs x)) in
+  verdict (match gen_sample false pofx x us, out with
+           | Ok m, Ok o => all2 (fun um o' => close_b (tol * ucond pcum (fst um)) (snd um) o') (combine us m) o
+           | Err a, Err b => err_eqb a b
+           | _, _ => false
+           end)
+          (if gen_ok_b pofx x then
+             match out with
+             | Ok o => gen_check_tu tol xvals pcum us o
+                       && pairs_mono_b (2 * tolx) (combine us o)
+                       && in_grid_b tolx (Qred (qnth pcum 0 * (1 + relq))) x (combine us o)
+             | Err _ => false
+             end
+           else true).
